@@ -210,8 +210,22 @@ fn create_buffer(size: usize) -> Box<[u8]> {
   buffer.into_boxed_slice()
 }
 
+/// Verification hook (off unless built with --cfg gb_dynarec_verif): lets a harness replace the bus with a
+/// recording bus, so that verifier counterexamples can be replayed against the real interpreter / emitter.
+#[cfg(gb_dynarec_verif)]
+pub mod verif_hook {
+  pub static mut READ_OVERRIDE: Option<fn(u16) -> u8> = None;
+  pub static mut WRITE_OVERRIDE: Option<fn(u16, u8)> = None;
+}
+
 #[inline(never)]
 pub extern "sysv64" fn memory_read_byte(areas: *const MemoryAreas, addr: u16) -> u8 {
+  #[cfg(gb_dynarec_verif)]
+  {
+    if let Some(read) = unsafe { verif_hook::READ_OVERRIDE } {
+      return read(addr);
+    }
+  }
   let memory_areas: &MemoryAreas = unsafe { &*areas };
   if addr < 0x4000 { // ROM Bank 0
     return memory_areas.rom[addr as usize];
@@ -265,6 +279,12 @@ pub extern "sysv64" fn memory_read_byte(areas: *const MemoryAreas, addr: u16) ->
 
 #[inline(never)]
 pub extern "sysv64" fn memory_write_byte(areas: *mut MemoryAreas, addr: u16, value: u8) {
+  #[cfg(gb_dynarec_verif)]
+  {
+    if let Some(write) = unsafe { verif_hook::WRITE_OVERRIDE } {
+      return write(addr, value);
+    }
+  }
   let memory_areas: &mut MemoryAreas = unsafe { &mut *areas };
   if addr < 0x8000 { // ROM Banks
     memory_areas.cart_state.write_rom(addr, value);
